@@ -20,7 +20,8 @@ EXPLANATION = (
     "(d) check_edges_increasing runs in histogram.__init__ before the edges are stored; (e) get_bin_on_value pairs "
     "arg[i] with edges[i] in order and rejects a length mismatch first; the coordinate and the edges compared in "
     "get_bin_on_value_1d are the parameters as given, never rebound to a converted copy; (f) every way round the `while True` search loop moves a bound strictly "
-    "(by a constant step, or `bound = guess` only after `guess == bound` was refuted), which is what makes fill() return.  Does not decide that the interpolation "
+    "(by a constant step, or `bound = guess` only after `guess == bound` was refuted), which is what makes fill() return.  (g) histogram.__init__, check_edges_increasing, get_bin_edges, unify_1_md, iter_bins_with_edges "
+    "(and init_bins, a tabled exception) tell one- from multidimensional edges by the same test on edges[0].  Does not decide that the interpolation "
     "search returns the right index (loop invariants over floats).")
 RULES = {
     "C06-a": "ONCE: exactly one `+= weight` per fill on every path, on a cell reached from self.bins in this call; no other state",
@@ -28,6 +29,8 @@ RULES = {
     "C06-c": "AGREE: all value/edge comparisons use <, >=, == only (half-open intervals)",
     "C06-d": "check_edges_increasing precedes storing the edges",
     "C06-e": "get_bin_on_value maps the 1-d lookup over the dimensions in order, after the length check",
+    "C06-g": "AGREE on dimension: histogram.__init__ derives dim/nbins/ranges with the same test on edges[0] as the edge check and the "
+             "iterators",
     "C06-f": "PROGRESS: every way round the search loop of get_bin_on_value_1d strictly shrinks the interval of candidate indices",
 }
 HIST = "lena.structures.histogram"
@@ -393,6 +396,7 @@ def check_progress(ctx):
 
 
 def check(ctx):
+    K.check_dimension_predicates(ctx, "C06-g", "dim, nbins and ranges of the histogram no longer describe the bins that fill() walks")
     check_progress(ctx)
     check_once(ctx)
     n = check_negative_guard(ctx, HIST, "histogram.fill", "C06-b")
@@ -404,6 +408,7 @@ def check(ctx):
 
 
 VARIANTS = [
+    M("histogram-dim-lists-only", "lena/structures/histogram.py", "        if hasattr(edges[0], \"__iter__\"):\n            self.dim = len(edges)", "        if isinstance(edges[0], list):\n            self.dim = len(edges)", ["C06-g"]),
     M("search-safeguard-removed", "lena/structures/hist_functions.py", "            elif ind_max == ind_guess:\n                ind_max -= 1\n                continue\n", "", ["C06-f"]),
     M("search-first-guard-removed", "lena/structures/hist_functions.py", "            if ind_min == ind_guess:\n                ind_min += 1\n                continue\n            # ind_max is always more that ind_guess,\n            # because val < arr[ind_max] (see the formula for shift).\n            # This branch is not needed and can't be tested.\n            # But for the sake of numerical inaccuracies, let us keep this\n            # so that we never get into an infinite loop.\n            elif ind_max == ind_guess:", "            if ind_max == ind_guess:", ["C06-f"]),
     M("search-step-zero", "lena/structures/hist_functions.py", "            if ind_min == ind_guess:\n                ind_min += 1\n                continue", "            if ind_min == ind_guess:\n                ind_min += 0\n                continue", ["C06-f"]),
